@@ -404,7 +404,7 @@ Proof.
   revert x0 tr. induction fuel as [|k IH]; intros x0 tr H; cbn [newton_r] in H; [discriminate|].
   destruct (f x0) as [[[fx dfx] s]|] eqn:E; [|discriminate]. cbv zeta in H.
   destruct (Qle_bool (Qabs (rnd (x0 - fx / dfx) - x0)) (atol + rtol * Qabs x0)) eqn:Ec.
-  - simpl in H. inversion H; subst. exists x0, fx, dfx. split; [assumption|]. apply Qle_bool_iff. assumption.
+  - cbn [fst] in H. inversion H; subst. exists x0, fx, dfx. split; [assumption|]. apply Qle_bool_iff. assumption.
   - eapply IH. eassumption.
 Qed.
 
@@ -420,9 +420,9 @@ Qed.
 (** at most [fuel] points are evaluated, and a run that evaluated [fuel] points without accepting ends in an error *)
 Theorem newton_r_trace_length fuel x0 tr : (length (snd (newton_r fuel x0 tr)) <= fuel + length tr)%nat.
 Proof.
-  revert x0 tr. induction fuel as [|k IH]; intros x0 tr; cbn [newton_r]; [simpl; lia|].
-  destruct (f x0) as [[[fx dfx] s]|]; [|simpl; lia]. cbv zeta.
-  destruct (Qle_bool _ _); [simpl; lia|]. specialize (IH (rnd (x0 - fx / dfx)) (x0 :: tr)). simpl in IH. lia.
+  revert x0 tr. induction fuel as [|k IH]; intros x0 tr; cbn [newton_r]; [cbn [snd length]; lia|].
+  destruct (f x0) as [[[fx dfx] s]|]; [|cbn [snd length]; lia]. cbv zeta.
+  destruct (Qle_bool _ _); [cbn [snd length]; lia|]. specialize (IH (rnd (x0 - fx / dfx)) (x0 :: tr)). cbn [length] in IH. lia.
 Qed.
 End NewtonR.
 
@@ -439,11 +439,6 @@ Definition caloric_step_oracle (k A ts ut : Q) (T : Q) : option (Q * Q * Q) :=
   let s := if Qltb T ts then -1 else 1 in
   Some ((k - 1) * T + s * A * T * T / (ts * ts) - ut, (k - 1) + s * 2 * A * T / (ts * ts), T).
 
-(** witness that exhaustion is reachable: the step oracle makes Newton alternate around Tstar for all 50 iterations -> error *)
-Example newton_r_exhausts :
-  fst (newton_r Q (caloric_step_oracle (9 # 2) 70 300 ((7 # 2) * 300)) (1 # 100000000) (fun q => q) 6 290 []) = None
-  /\ length (snd (newton_r Q (caloric_step_oracle (9 # 2) 70 300 ((7 # 2) * 300)) (1 # 100000000) (fun q => q) 6 290 [])) = 6%nat.
-Proof. split; vm_compute; reflexivity. Qed.
 
 (** non-vacuity: Newton on x^2 - 2 from 3/2 converges within 50 steps with atol 1e-8 *)
 Example newton_nonvacuous :
@@ -475,3 +470,9 @@ Definition run_di (T a b amp rs maxd ptarget rho0 : Q) :=
 Definition run_newton (k A ts ut t0 : Q) :=
   let '(r, tr) := newton_r Q (caloric_step_oracle k A ts ut) (1 # 100000000) (rnd_grid 60) 50 t0 [] in
   (match r with Some T => (0%Z, enc_q T) | None => (13%Z, (0%Z, 0%Z)) end, map enc_q (rev tr)).
+
+(** witness that exhaustion is reachable: the step oracle makes Newton alternate around Tstar for all 50 iterations -> error *)
+Example newton_r_exhausts :
+  fst (newton_r Q (caloric_step_oracle (9 # 2) 70 300 ((7 # 2) * 300)) (1 # 100000000) (rnd_grid 60) 50 290 []) = None
+  /\ length (snd (newton_r Q (caloric_step_oracle (9 # 2) 70 300 ((7 # 2) * 300)) (1 # 100000000) (rnd_grid 60) 50 290 [])) = 50%nat.
+Proof. split; vm_compute; reflexivity. Qed.
